@@ -6,6 +6,7 @@ import (
 	"go/token"
 	"go/types"
 	"path/filepath"
+	"strings"
 
 	"golang.org/x/tools/go/packages"
 	"golang.org/x/tools/go/ssa"
@@ -194,7 +195,14 @@ func runC10M1(c *Ctx, e *c10env, bce *c10bce, px *c10prover) {
 	}
 	// vacuity: the region must have been found (two roots) and must index its input somewhere
 	c.atLeast("C10.M1", "functions parsing bytes read before routing (parser roots called by the SNI handler)", len(e.roots), 2)
-	c.atLeast("C10.M1", "index/slice expressions in the ClientHello parser", nIdx, 4)
+	// (a parser written with the cryptobyte cursor has reads instead of index expressions)
+	nReads := 0
+	eachInstrOf(e.pfns, func(_ *ssa.Function, i ssa.Instruction) {
+		if call, ok := i.(*ssa.Call); ok && !call.Call.IsInvoke() && c10isTotalReader(calleeName(&call.Call)) {
+			nReads++
+		}
+	})
+	c.atLeast("C10.M1", "index/slice expressions (or length-checked cursor reads) in the ClientHello parser", nIdx+nReads, 4)
 	_ = nResidual
 }
 
@@ -212,6 +220,28 @@ var c10total = map[string]bool{
 	"unicode/utf8.Valid": true, "unicode/utf8.ValidString": true, "unicode/utf8.RuneCount": true, "unicode/utf8.RuneCountInString": true,
 	"log.Print": true, "log.Printf": true, "log.Println": true,
 	"slices.Contains": true, "slices.Index": true, "slices.Equal": true,
+	// (round 2) more functions that are total on every argument
+	"strings.Clone": true, "bytes.Clone": true, "bytes.TrimRight": true, "bytes.TrimLeft": true, "bytes.Trim": true, "bytes.TrimSuffix": true, "bytes.TrimPrefix": true,
+	"bytes.ToLower": true, "bytes.ToUpper": true, "bytes.EqualFold": true, "bytes.LastIndex": true, "bytes.Count": true, "strings.LastIndex": true, "strings.Count": true,
+	"strings.IndexAny": true, "strings.ContainsAny": true, "strings.ContainsRune": true, "strings.IndexRune": true, "strings.Fields": true, "strings.Split": true,
+	"unicode/utf8.DecodeRune": true, "unicode/utf8.DecodeRuneInString": true, "unicode/utf8.DecodeLastRune": true, "unicode/utf8.FullRune": true,
+	"errors.Is": true, "errors.Unwrap": true, "errors.Join": true, "fmt.Sprintln": true, "net.ParseIP": true,
+}
+
+// c10totalReaders: the reading methods of golang.org/x/crypto/cryptobyte.String (the cursor crypto/tls itself parses
+// hostile handshakes with): each checks the remaining length and reports false instead of reading out of range.
+var c10totalReaders = map[string]bool{
+	"Skip": true, "Empty": true, "ReadUint8": true, "ReadUint16": true, "ReadUint24": true, "ReadUint32": true, "ReadUint64": true,
+	"ReadBytes": true, "CopyBytes": true, "ReadUint8LengthPrefixed": true, "ReadUint16LengthPrefixed": true, "ReadUint24LengthPrefixed": true,
+}
+
+func c10isTotalReader(name string) bool {
+	for _, recv := range []string{"(*golang.org/x/crypto/cryptobyte.String).", "(golang.org/x/crypto/cryptobyte.String)."} {
+		if strings.HasPrefix(name, recv) && c10totalReaders[strings.TrimPrefix(name, recv)] {
+			return true
+		}
+	}
+	return false
 }
 
 // functions that are total under a minimum length of their byte-slice argument (argument index, minimum)
@@ -226,6 +256,15 @@ func c10nonNil(v ssa.Value, b *ssa.BasicBlock, depth int) bool {
 	switch x := v.(type) {
 	case *ssa.Alloc, *ssa.Global, *ssa.FieldAddr, *ssa.IndexAddr, *ssa.Function, *ssa.MakeClosure:
 		return true
+	case *ssa.SliceToArrayPointer:
+		// the conversion itself is an obligation (len(slice) >= N); once it has succeeded with N > 0 the slice holds
+		// at least one element, so it is not nil and neither is the pointer to its backing array
+		if p, ok := x.Type().Underlying().(*types.Pointer); ok {
+			if a, ok := p.Elem().Underlying().(*types.Array); ok && a.Len() > 0 {
+				return true
+			}
+		}
+		return false
 	case *ssa.Phi:
 		if depth > 3 {
 			return false
@@ -239,6 +278,28 @@ func c10nonNil(v ssa.Value, b *ssa.BasicBlock, depth int) bool {
 			}
 		}
 		return true
+	case *ssa.FreeVar:
+		// a captured variable: the address of the variable in the maker of the closure
+		f := x.Parent()
+		if depth > 3 || f == nil || f.Parent() == nil {
+			return false
+		}
+		idx := -1
+		for k, fv := range f.FreeVars {
+			if fv == x {
+				idx = k
+			}
+		}
+		okAll, n := true, 0
+		eachInstr(f.Parent(), func(i ssa.Instruction) {
+			if mc, ok := i.(*ssa.MakeClosure); ok && mc.Fn == f {
+				n++
+				if idx < 0 || idx >= len(mc.Bindings) || !c10nonNil(mc.Bindings[idx], mc.Block(), depth+1) {
+					okAll = false
+				}
+			}
+		})
+		return okAll && n > 0
 	case *ssa.Parameter:
 		if b != nil && knownNonNil(b, sameVal(v)) {
 			return true
@@ -397,6 +458,15 @@ func runC10M2(c *Ctx, e *c10env, px *c10prover) {
 				if c10total[name] {
 					return
 				}
+				if c10isTotalReader(name) {
+					// out-parameters must be real variables
+					for _, a := range x.Call.Args {
+						if c10deref(a.Type()) != nil && !c10nonNil(a, x.Block(), 0) {
+							bad("call to " + name + " with a pointer that may be nil")
+						}
+					}
+					return
+				}
 				if pre, ok := c10minLen[name]; ok && int(pre[0]) < len(x.Call.Args) {
 					arg := x.Call.Args[pre[0]]
 					c.check("C10.M2", key+"|"+name+" on a slice of sufficient length", x.Pos(), d().proveLE(c10k(pre[1]), c10len(arg), 0),
@@ -430,12 +500,15 @@ func runC10M2(c *Ctx, e *c10env, px *c10prover) {
 // ---- S1 / M3: bounds of the buffer size -------------------------------------------------------------------------------
 
 // c10sizeBody: the function in which the size is computed: the size function, or - when that merely forwards to one
-// same-package helper - the helper.
-func c10sizeBody(e *c10env, f *ssa.Function, depth int) (*ssa.Function, []ssa.Value) {
-	var bparams []ssa.Value
-	for _, p := range f.Params {
-		if c10isByteSlice(p.Type()) {
-			bparams = append(bparams, p)
+// same-package helper - the helper. inputs maps the byte-carrying parameters of f (slices, arrays, pointers to arrays)
+// to the offset of their first byte within the bytes the handler gave to the size function; nil at the top.
+func c10sizeBody(e *c10env, f *ssa.Function, inputs map[ssa.Value]int64, depth int) (*ssa.Function, []ssa.Value) {
+	if inputs == nil {
+		inputs = map[ssa.Value]int64{}
+		for _, p := range f.Params {
+			if c10isByteSlice(p.Type()) {
+				inputs[p] = 0
+			}
 		}
 	}
 	var cands []ssa.Value
@@ -450,13 +523,11 @@ func c10sizeBody(e *c10env, f *ssa.Function, depth int) (*ssa.Function, []ssa.Va
 			return
 		}
 		ref, ok := c10beBytes(v, nil, 0)
-		if !ok || ref.off != 3 || ref.n != 2 {
+		if !ok || ref.n != 2 {
 			return
 		}
-		for _, p := range bparams {
-			if ref.root == p {
-				cands = append(cands, v)
-			}
+		if base, isIn := inputs[ref.root]; isIn && base+ref.off == 3 {
+			cands = append(cands, v)
 		}
 	})
 	if len(cands) > 0 || depth > 2 {
@@ -464,10 +535,11 @@ func c10sizeBody(e *c10env, f *ssa.Function, depth int) (*ssa.Function, []ssa.Va
 	}
 	// forwarder: every nil-error return hands on the results of one call of a region function
 	var inner *ssa.Function
+	var innerCall *ssa.Call
 	okFwd := true
 	eachInstr(f, func(i ssa.Instruction) {
 		r, ok := i.(*ssa.Return)
-		if !ok || len(r.Results) != 2 || c10certainlyNonNil(r.Results[1], r.Block()) {
+		if !ok || len(r.Results) != 2 || !c10maySucceed(r, 1) {
 			return
 		}
 		ex, ok := r.Results[0].(*ssa.Extract)
@@ -476,14 +548,25 @@ func c10sizeBody(e *c10env, f *ssa.Function, depth int) (*ssa.Function, []ssa.Va
 			return
 		}
 		call, ok := ex.Tuple.(*ssa.Call)
-		if !ok || call.Call.StaticCallee() == nil || !e.inP[call.Call.StaticCallee()] || (inner != nil && inner != call.Call.StaticCallee()) {
+		if !ok || call.Call.StaticCallee() == nil || !e.inP[call.Call.StaticCallee()] || (innerCall != nil && innerCall != call) {
 			okFwd = false
 			return
 		}
-		inner = call.Call.StaticCallee()
+		inner, innerCall = call.Call.StaticCallee(), call
 	})
 	if okFwd && inner != nil && inner != f {
-		return c10sizeBody(e, inner, depth+1)
+		// which bytes of the input the helper's parameters hold
+		in2 := map[ssa.Value]int64{}
+		for k, p := range inner.Params {
+			if k >= len(innerCall.Call.Args) || !c10byteLike(p.Type()) {
+				continue
+			}
+			root, off, ok := c10sliceBase(innerCall.Call.Args[k], nil, 0)
+			if base, isIn := inputs[root]; ok && isIn {
+				in2[p] = base + off
+			}
+		}
+		return c10sizeBody(e, inner, in2, depth+1)
 	}
 	return f, nil
 }
@@ -493,7 +576,38 @@ func runC10S1(c *Ctx, e *c10env, px *c10prover) {
 		c.undecided("C10.S1", "proxy/tcp|size function", "no function of the parser region returns (int, error) to the SNI handler as the size of its capture buffer")
 		return
 	}
-	body, recs := c10sizeBody(e, e.sizeFn, 0)
+	// the bytes the size function is given start at the first byte of the stream: the peeked (or captured) bytes
+	// themselves, not a slice of them that starts later ("bytes 3-4" must be bytes 3-4 of the TLS record)
+	for _, sc := range e.sizeCalls {
+		for _, a := range sc.Call.Args {
+			if !c10carriesBytes(a.Type(), 0) {
+				continue
+			}
+			root, off, ok := c10sliceBase(a, nil, 0)
+			if !ok {
+				continue
+			}
+			start := false
+			o := c10origin(root)
+			if r, isRes := e.resOf(o); isRes {
+				for _, pk := range e.peeks {
+					if pk == r.call {
+						start = true
+					}
+				}
+			}
+			for _, mk := range e.buffers {
+				if o == ssa.Value(mk) {
+					start = true
+				}
+			}
+			if start {
+				c.check("C10.S1", fnKey(e.h)+"|size function reads the record header at the start of the stream", sc.Pos(), off == 0,
+					fmt.Sprintf("the size function is given the peeked bytes from offset %d on: what it takes for the record length is not bytes 3-4 of the TLS record", off))
+			}
+		}
+	}
+	body, recs := c10sizeBody(e, e.sizeFn, nil, 0)
 	key := fnKey(body)
 	if len(recs) == 0 {
 		c.undecided("C10.S1", key+"|record length", "the value built from header bytes 3-4 was not found")
@@ -502,7 +616,7 @@ func runC10S1(c *Ctx, e *c10env, px *c10prover) {
 	nRet := 0
 	eachInstr(body, func(i ssa.Instruction) {
 		r, ok := i.(*ssa.Return)
-		if !ok || len(r.Results) != 2 || c10certainlyNonNil(r.Results[1], r.Block()) {
+		if !ok || len(r.Results) != 2 || !c10maySucceed(r, 1) {
 			return
 		}
 		// every return that may carry a nil error (a constant nil, or an error value not known to be set)
@@ -549,11 +663,7 @@ func runC10S2(c *Ctx, e *c10env, bce *c10bce, px *c10prover) {
 		mk = m
 		okMk = false
 		if sz, ok := e.resOf(m.Len); ok && sz.idx == 0 && isSizeCall(sz.call) {
-			isErr := func(v ssa.Value) bool {
-				r, ok := e.resOf(v)
-				return ok && r.call == sz.call && r.idx == 1
-			}
-			okMk = knownNil(m.Block(), isErr)
+			okMk = e.successKnown(m.Block(), sz.call, 1)
 		}
 		if !okMk {
 			break
@@ -600,7 +710,7 @@ func runC10S2(c *Ctx, e *c10env, bce *c10bce, px *c10prover) {
 	nArg := 0
 	for _, pc := range e.parseCalls {
 		for _, a := range pc.Call.Args {
-			if c10isBytesOrString(a.Type()) && derives(a, func(v ssa.Value) bool { return v == ssa.Value(mk) }) {
+			if c10carriesBytes(a.Type(), 0) && e.derivesMem(a, func(v ssa.Value) bool { return v == ssa.Value(mk) }) {
 				nArg++
 			}
 		}
@@ -714,7 +824,40 @@ func c10parserOutput(e *c10env, key ssa.Value) *ssa.Call {
 		return isPC(r.call)
 	}
 	switch x := key.(type) {
+	case *ssa.Field:
+		// a field of a struct the parser returned by value
+		if r, ok := e.structResult(x); ok {
+			return isPC(r.call)
+		}
+	case *ssa.Phi:
+		// "" on the paths that did not parse, the parser's output on the other: the lookup must be under name != ""
+		// anyway, which singles out the parser's edge
+		var pc *ssa.Call
+		for _, ed := range x.Edges {
+			if str, isK := constString(ed); isK && str == "" {
+				continue
+			}
+			p2 := c10parserOutput(e, c10origin(ed))
+			if p2 == nil || (pc != nil && p2 != pc) {
+				return nil
+			}
+			pc = p2
+		}
+		return pc
 	case *ssa.UnOp:
+		if r, ok := e.structResult(x); ok {
+			if pc := isPC(r.call); pc != nil {
+				return pc
+			}
+		}
+		if fa, ok := x.X.(*ssa.FieldAddr); ok && x.Op == token.MUL {
+			// a field of a struct the parser returned a pointer to
+			if r, ok := e.resOf(fa.X); ok {
+				if pc := isPC(r.call); pc != nil {
+					return pc
+				}
+			}
+		}
 		if fa, ok := x.X.(*ssa.FieldAddr); ok && x.Op == token.MUL {
 			if a, ok := fa.X.(*ssa.Alloc); ok {
 				for _, pc := range e.parseCalls {
@@ -742,7 +885,17 @@ func c10parseSucceeded(e *c10env, pc *ssa.Call, facts []Fact) bool {
 			isBool = true
 		}
 		isErr := typeStr(t) == "error"
-		if !isBool && !isErr {
+		isStruct := false
+		if st, ok := t.Underlying().(*types.Struct); ok {
+			nBool := 0
+			for i := 0; i < st.NumFields(); i++ {
+				if c10isBool(st.Field(i).Type()) {
+					nBool++
+				}
+			}
+			isStruct = nBool == 1 // a result struct with ONE flag: that flag is the verdict
+		}
+		if !isBool && !isErr && !isStruct {
 			continue
 		}
 		need = true
@@ -753,6 +906,11 @@ func c10parseSucceeded(e *c10env, pc *ssa.Call, facts []Fact) bool {
 		for _, f := range facts {
 			if isBool && is(f.Cond) && f.Truth {
 				return true
+			}
+			if isStruct && f.Truth && c10isBool(f.Cond.Type()) {
+				if r, ok := e.structResult(f.Cond); ok && r.call == pc && r.idx == k {
+					return true // the ok field of a result struct
+				}
 			}
 			if isErr {
 				if nn, ok := nilFact(f, is); ok && !nn {
